@@ -137,17 +137,55 @@ def _extras2(rng, issuer):
     """second hardening round: the signer object has issued 0..2 certificates before this one; the signer's private key
     handed over as DER or PEM, its key locator as URI text / component list / encoded Name (incl. typed and empty
     components); the issuer-id component and the public key in a bytes / bytearray / memoryview buffer"""
-    e = {'prior': rng.choice([0, 0, 1, 1, 2]), 'iid_form': rng.choice(BUF_FORMS), 'pub_form': rng.choice(BUF_FORMS)}
+    e = {'prior': rng.choice([0, 0, 1, 1, 2, 3]), 'iid_form': rng.choice(BUF_FORMS), 'pub_form': rng.choice(BUF_FORMS)}
     if issuer[0].startswith(('ec', 'rsa')) and rng.random() < 0.3:
         e['key_form'] = 'pem'
     if issuer[0] in ('hmac', 'ed25519') and rng.random() < 0.3:
         e['key_form'] = rng.choice(['bytearray', 'mv'])
-    if issuer[0] not in ('digest', 'synth') and rng.random() < 0.5:
+    if issuer[0] not in ('digest', 'synth') and rng.random() < 0.6:
+        # the key locator the signer is configured with: an unrelated name here; _random_case may replace it by the key
+        # name itself or by the name of the key's self-signed certificate (it knows the key name)
         e['kl'] = [c.hex() for c in PK.rand_name(rng)] + ['08034b4559', PK.rand_comp(rng).hex()]
+        e['kl_kind'] = rng.choice(['other', 'other', 'key', 'selfcert', 'cert'])
         e['kl_form'] = rng.choice(['list', 'str', 'wire'])
-        if e['kl_form'] == 'str' and any(c[:2] in ('32', '34', '36', '38', '3a') for c in e['kl']):
-            e['kl_form'] = 'wire'
     return e
+
+
+LOCATED = [['ec256'], ['ec384'], ['ec521'], ['ec224'], ['rsa2048'], ['ed25519'], ['hmac']]      # signers with a key_locator_name
+_V = lambda n: _version_comp(n).hex()      # noqa: E731
+
+
+def _locator(kind, key_name, rng):
+    """a key locator of that kind for a signer that signs for the key key_name"""
+    if kind == 'key' and key_name:
+        return list(key_name)
+    if kind == 'selfcert' and key_name:
+        return list(key_name) + [_gc('self'), _V(rng.choice([0, 1, 255, 256, 1700000000000]))]
+    if kind == 'cert' and key_name:
+        return list(key_name) + [_gc(rng.choice(['ca', 'NDNCERT', 'KEY'])), _V(rng.randint(0, 2 ** 40))]
+    return [_gc(t) for t in rng.choice([['somewhere', 'else'], ['k', 'KEY', 'x'], ['a'], ['alice', 'KEY', 'k2', 'self', 'v']])]
+
+
+def _fix_kl_form(case):
+    return case       # every locator has a URI text: it is written by the harness (PK.uri_name, typed components as <type>=<escaped>)
+
+
+def _locators(rng, tier):
+    """every signer class with a key locator x self_sign / sign_req / derive_cert x the locator being the key name, the
+    name of the key's self-signed certificate, of another certificate of the key, an unrelated name x handed to the
+    signer as component list / URI text / encoded Name; the same signer object having issued 0..3 certificates before"""
+    kn = ['0805616c696365', '08034b4559', '08026b31']
+    for sg in LOCATED:
+        if tier == 'quick' and sg[0] in ('rsa2048', 'ec521', 'ec224') and rng.random() < 0.5:
+            continue
+        for fn in ('self', 'req', 'derive'):
+            for kind in ('key', 'selfcert', 'cert', 'other'):
+                forms = ['list', 'str', 'wire'] if tier != 'quick' else [rng.choice(['list', 'str', 'wire'])]
+                for form in forms:
+                    key_name = kn if rng.random() < 0.7 else [c.hex() for c in PK.rand_name(rng)][:2] + ['08034b4559', _gc('k%d' % rng.randrange(9))]
+                    yield _fix_kl_form(_base(rng, fn=fn, issuer=sg, key_name=key_name, kl=_locator(kind, key_name, rng), kl_kind=kind,
+                                             kl_form=form, prior=rng.choice([0, 1, 2, 3]), start=_rand_time(rng),
+                                             now=[2024, 5, 6, 7, 8, 9], kn_form=rng.choice(['list', 'str', 'wire'])))
 
 
 def _gc(text):
@@ -288,6 +326,10 @@ def _random_case(rng, tier):
             'seed': rng.getrandbits(32)}
     case.update(_extras(rng))
     case.update(_extras2(rng, issuer))
+    if case.get('kl_kind') in ('key', 'selfcert', 'cert'):
+        case['kl'] = _locator(case['kl_kind'], key_name, rng)
+    if case.get('kl') is not None:
+        _fix_kl_form(case)
     if start[0] < 2 and (case.get('tz') or case.get('tz_s') or case.get('zone')):
         start[0] = 2          # 0001-01-01 expressed in a zone behind UTC is not a datetime the harness could hand over
     if case['kn_form'] in ('str', 'strlist', 'mixed') and any(c[:2] in ('32', '34', '36', '38', '3a') for c in key_name):
@@ -490,6 +532,7 @@ def _low_years(rng, tier):
 def cases(rng, tier):
     yield from _dst_cases(rng, tier)
     yield from _keyish(rng, tier)
+    yield from _locators(rng, tier)
     yield from _low_years(rng, tier)
     yield from _calendar_edges(rng)
     yield from _sweep(rng, tier)
@@ -726,6 +769,58 @@ def _requested(case):
         return None, None
 
 
+def _recording(inner):
+    """the signer the library is handed: the real signer object itself (its class, its attributes - whatever the library may
+    look at, copy or change is there) with the three signer methods wrapped so that what it was asked and what it produced
+    is on record.  The record is shared by shallow copies of the object."""
+    import copy
+    cls = type(inner)
+
+    class Rec(cls):
+        def write_signature_info(self, si):
+            cls.write_signature_info(self, si)
+            self._log['si'] = si
+
+        def get_signature_value_size(self):
+            self._log['reserved'] = cls.get_signature_value_size(self)
+            return self._log['reserved']
+
+        def write_signature_value(self, wire, contents):
+            self._log['covered'] = [bytes(c) for c in contents]
+            n = cls.write_signature_value(self, wire, contents)
+            self._log['sig'] = bytes(wire[:n])
+            return n
+    Rec.__name__, Rec.__qualname__ = cls.__name__, cls.__qualname__
+    obj = copy.copy(inner)
+    obj.__class__ = Rec
+    obj._log = {}
+    return obj
+
+
+_DEFAULT_KL = {'hmac': ['k', 'hmac'], 'rsa2048': ['k', 'rsa'], 'ed25519': ['k', 'ed']}
+
+
+def _configured_kl(case):
+    """the key locator the issuing signer is configured with (hex components), None for signers that have none"""
+    k = case['issuer'][0]
+    if k in ('digest', 'synth', 'custom', 'null', 'none'):
+        return None
+    if case.get('kl') is not None:
+        return list(case['kl'])
+    return [_gc(t) for t in _DEFAULT_KL.get(k, ['k', k])]
+
+
+def _wire_path(fs, vals, path):
+    """the value of the element reached by following the TLV types in `path` through nested models, as the harness's own
+    decoder read it; None when absent"""
+    for f, v in zip(fs, vals):
+        if S._typ(f) == path[0] and v is not None:
+            if len(path) == 1:
+                return v
+            return _wire_path(f[3], v[1], path[1:]) if f[0] == 'M' else None
+    return None
+
+
 def run_impl(case):
     if case['fn'] == 'cal':
         return {'made': ['cal'], 'cal': _run_cal(case)}
@@ -735,9 +830,11 @@ def run_impl(case):
     kl = None
     if case.get('kl') is not None:
         kl = [bytes.fromhex(c) for c in case['kl']]
-        kl = enc.Name.to_str(kl) if case.get('kl_form') == 'str' else bytes(enc.Name.to_bytes(kl)) if case.get('kl_form') == 'wire' else kl
-    inner = PK.make_signer(case['issuer'], key_name=kl, key_form=case.get('key_form'))
-    rec = PK.Recorder(inner)
+        kl = PK.uri_name(kl) if case.get('kl_form') == 'str' else bytes(enc.Name.to_bytes(kl)) if case.get('kl_form') == 'wire' else kl
+    import copy
+    kl_before = copy.deepcopy(bytes(kl) if isinstance(kl, (bytes, bytearray)) else kl)
+    # ONE signer object for every call of this case
+    signer = _recording(PK.make_signer(case['issuer'], key_name=kl, key_form=case.get('key_form')))
     key_name = [bytes.fromhex(c) for c in case['key_name']]
     form = case.get('kn_form', 'list')
     if form == 'str':
@@ -756,10 +853,14 @@ def run_impl(case):
     now = _dt.datetime(*case['now'], us, tzinfo=_dt.timezone.utc)
     local_off = case.get('local_off')
 
+    # the clock: an ordinary day while the signer issues its earlier certificates, case['now'] for the call under test
+    clock = [_dt.datetime(2001, 2, 3, 4, 5, 6, tzinfo=_dt.timezone.utc)]
+
     class _DT(_dt.datetime):
         @classmethod
         def now(cls, tz=None):
             # the machine's zone is UTC+local_off hours: asking for the local time gives another wall-clock reading
+            now = clock[0]
             if tz is None:
                 return now if local_off is None else (now + _dt.timedelta(hours=local_off)).replace(tzinfo=None)
             return now.astimezone(tz)
@@ -770,12 +871,16 @@ def run_impl(case):
             # second use: the same signer object has issued other certificates before (an application's signer lives as
             # long as its keychain); what it did then must not show in this certificate
             for i in range(case.get('prior', 0)):
-                if i % 2 == 0:
-                    sv.derive_cert('/prior/KEY/%d' % i, 'earlier', b'\x30' * (50 + i), inner,
+                if i == 0:
+                    sv.derive_cert('/prior/KEY/%d' % i, 'earlier', b'\x30' * (50 + i), signer,
                                    _dt.datetime(2001, 2, 3, 4, 5, 6), 77)
+                elif i == 1:
+                    sv.self_sign([b'\x08\x05prior', b'\x08\x03KEY', b'\x08\x01\x01'], b'\x31' * 300, signer)
                 else:
-                    sv.derive_cert([b'\x08\x05prior', b'\x08\x03KEY', b'\x08\x01\x01'], b'\x08\x01x', b'\x31' * 300,
-                                   PK.Recorder(inner), _dt.datetime(1999, 12, 31, 23, 59, 59), 0)
+                    sv.sign_req('/prior/KEY/%d' % i, b'\x32' * 91, signer)
+            signer._log.clear()
+            clock[0] = now
+            rec = signer
             if case['fn'] == 'self':
                 name, wire = sv.self_sign(key_name, pub_arg, rec)
                 issuer = b'\x08\x04self'         # NDN certificate naming: the issuer id of a self-signed certificate
@@ -803,14 +908,28 @@ def run_impl(case):
     # the requested instants (UTC), worked out apart from the call: None when they are not representable (then a
     # certificate has no business existing, which the comparison with the model reports)
     t0, t1 = _requested(case)
+    log = signer._log
     out.update({'issuer': issuer.hex(), 't0': t0, 't1': t1, 'pub': pub.hex(),
                 'version': _version_comp(case['ts']).hex(),
-                'reserved': rec.reserved, 'sig': rec.sig.hex() if rec.sig is not None else None,
-                'covered': b''.join(rec.covered).hex() if rec.covered is not None else None})
-    from ndn.encoding.ndn_format_0_3 import SignatureInfo
+                'reserved': log.get('reserved'), 'sig': log['sig'].hex() if log.get('sig') is not None else None,
+                'covered': b''.join(log['covered']).hex() if log.get('covered') is not None else None})
+    # the signer object after the calls: its configured key locator is still what it was configured with
+    if kl is not None:
+        after = getattr(signer, 'key_locator_name', None)
+        after = bytes(after) if isinstance(after, (bytes, bytearray)) else after
+        out['kl_unchanged'] = type(after) is type(kl_before) and after == kl_before
+    from ndn.encoding.ndn_format_0_3 import SignatureInfo, KeyLocator
     si_fs = T.class_schema(SignatureInfo)
-    # the five fields the signer filled in (the certificate's SignatureInfo starts with them)
-    out['signer_info'] = T.values_text([T.from_py(s, rec.si.__dict__.get(f.name)) for f, s in zip(SignatureInfo._encoded_fields, si_fs)])
+    # the five fields the signer fills in (the certificate's SignatureInfo starts with them), the KeyLocator being the
+    # one the signer was CONFIGURED with before the calls (so the model speaks about the configured locator, whatever
+    # object did the signing in the end)
+    si_d = dict(log['si'].__dict__) if log.get('si') is not None else {}
+    cfg = _configured_kl(case)
+    if cfg is not None and si_d.get('key_locator') is not None:
+        k2 = KeyLocator()
+        k2.name = [bytes.fromhex(c) for c in cfg]
+        si_d['key_locator'] = k2
+    out['signer_info'] = T.values_text([T.from_py(s, si_d.get(f.name)) for f, s in zip(SignatureInfo._encoded_fields, si_fs)])
     # parse with both decoders
     try:
         cert = sv.parse_certificate(wire)
@@ -840,6 +959,9 @@ def run_impl(case):
         vals = S.strict_packet(fs, wire, 6, False, True)
         # the certificate's name as the harness's own decoder reads it off the wire (not the library's parsers)
         out['wire_name'] = next(([c.hex() for c in v[1]] for f, v in zip(fs, vals) if f[0] == 'N' and v is not None), None)
+        # ... and the KeyLocator Name inside its SignatureInfo (Data / SignatureInfo 22 / KeyLocator 28 / Name 7)
+        wkl = _wire_path(fs, vals, [22, 28, 7])
+        out['wire_kl'] = [c.hex() for c in wkl[1]] if wkl is not None else None
         body = b''.join(T.ref_encode(s, v) for s, v in zip(fs, vals))
         out['strict'] = 'ok' if T.tl(6) + T.tl(len(body)) + body == wire else 'not-minimal-or-out-of-order'
     except S.Reject as r:
@@ -915,17 +1037,16 @@ def oracle(case, impl):
         return 'content type is not KEY'
     if impl['t0'] is not None and (c['not_before'] != _fmt(impl['t0']) or c['not_after'] != _fmt(impl['t1'])):
         return f"validity period {c['not_before']}..{c['not_after']} does not encode the requested instants {_fmt(impl['t0'])}..{_fmt(impl['t1'])}"
-    k = case['issuer'][0]
-    want_kl = {'hmac': '/k/hmac', 'rsa2048': '/k/rsa', 'ed25519': '/k/ed'}.get(k, '/k/' + k if k.startswith('ec') else None)
-    if want_kl is not None and case.get('kl') is not None:
-        if c['key_locator'] != list(case['kl']):
+    # the locator the signer was configured with before the call, against the KeyLocator read off the wire by the
+    # harness's own decoder (and against what the library's parser reports)
+    want_kl = _configured_kl(case)
+    if want_kl is not None:
+        if impl.get('wire_kl') != want_kl or c['key_locator'] != want_kl:
             return 'key locator is not the one configured in the issuing signer'
-    elif want_kl is not None:
-        from ndn.encoding import Name
-        if c['key_locator'] != [bytes(x).hex() for x in Name.from_str(want_kl)]:
-            return 'key locator is not the one configured in the issuing signer'
-    elif c['key_locator'] is not None:
+    elif impl.get('wire_kl') is not None or c['key_locator'] is not None:
         return 'the certificate names a key locator although the issuing signer configures none'
+    if impl.get('kl_unchanged') is False:
+        return 'issuing a certificate changed the key locator the signer object is configured with'
     if impl['verify'] is False or isinstance(impl['verify'], str):
         return f"signature does not verify under the issuing key ({impl['verify']})"
     if impl['parse_data']['SV'] != impl['sig'] or impl['parse_data']['SC'] != impl['covered']:
@@ -974,6 +1095,8 @@ def tags(case, impl):
         t.append('prior-certificates-of-the-signer:%d' % case.get('prior', 0))
         t.append('key-form:' + case.get('key_form', 'der'))
         t.append('key-locator:' + (case.get('kl_form', 'list') if case.get('kl') is not None else 'default-text'))
+        if case.get('kl') is not None:
+            t.append('key-locator-is:%s,%s' % ('the-key-name' if case['kl'] == case['key_name'] else case.get('kl_kind', 'other'), case['fn']))
         t.append('pub-form:' + case.get('pub_form', 'bytes'))
         if case['fn'] == 'derive' and case['issuer_id'][0] == 'comp':
             t.append('issuer-comp-form:' + case.get('iid_form', 'bytes'))
